@@ -27,6 +27,234 @@ theorem Reach.single (c : SoundCore ℝ) (e : Event ℝ) : Reach c (c.apply e) :
 
 end SoundCore
 
+/-! ### the state manager -/
+
+namespace Psm
+
+theorem playbackState_stopped_iff (m : Psm ℝ) : m.playbackState = .stopped ↔ m.isStopped = true := by
+  obtain ⟨st, fade⟩ := m; unfold playbackState isStopped; cases st <;> simp
+
+theorem pause_state (m : Psm ℝ) (tw : Tween ℝ) :
+    (m.pause tw).playbackState = if m.playbackState = .stopped then .stopped else .pausing := by
+  obtain ⟨st, fade⟩ := m; unfold pause playbackState isStopped; cases st <;> simp
+
+theorem stop_state (m : Psm ℝ) (tw : Tween ℝ) :
+    (m.stop tw).playbackState = if m.playbackState = .stopped then .stopped else .stopping := by
+  obtain ⟨st, fade⟩ := m; unfold stop playbackState isStopped; cases st <;> simp
+
+theorem resume_state (m : Psm ℝ) (st : StartTime ℝ) (tw : Tween ℝ) :
+    (m.resume st tw).playbackState = if m.playbackState = .stopped then .stopped
+      else if st.isImmediate then .resuming else .waitingToResume := by
+  obtain ⟨s0, fade⟩ := m
+  unfold resume playbackState isStopped
+  cases s0 <;> cases st <;> simp [StartTime.isImmediate]
+
+/-- the edges an `update` can take -/
+def UpdateEdge : PlaybackState → PlaybackState → Prop
+  | a, b => a = b ∨ (a = .pausing ∧ b = .paused) ∨ (a = .resuming ∧ b = .playing) ∨ (a = .stopping ∧ b = .stopped)
+      ∨ (a = .waitingToResume ∧ b = .resuming) ∨ (a = .waitingToResume ∧ b = .stopped)
+
+theorem updateEdge_settled (a b : PlaybackState) (h : UpdateEdge a b)
+    (ha : a = .paused ∨ a = .stopped ∨ a = .playing) : b = a := by
+  unfold UpdateEdge at h
+  rcases ha with rfl | rfl | rfl <;> rcases h with h | h | h | h | h | h <;> simp_all
+
+theorem update_edge (m : Psm ℝ) (dt : ℝ) (info : Info ℝ) :
+    UpdateEdge m.playbackState (m.update dt info).1.playbackState
+      ∧ ((m.update dt info).2 = false → (m.update dt info).1.playbackState = m.playbackState) := by
+  obtain ⟨st0, fade⟩ := m
+  unfold update UpdateEdge playbackState
+  cases st0 with
+  | waitingToResume st tw =>
+    simp only []
+    by_cases h1 : (st.update dt info).2 = true
+    · simp [h1]
+    · by_cases h2 : (st.update dt info).1.isImmediate = true
+      · simp [h1, h2, resume, isStopped]
+      · simp [h1, h2]
+  | pausing => simp only []; by_cases hf : (fade.update tw32 dt info).2 = true <;> simp [hf]
+  | resuming => simp only []; by_cases hf : (fade.update tw32 dt info).2 = true <;> simp [hf]
+  | stopping => simp only []; by_cases hf : (fade.update tw32 dt info).2 = true <;> simp [hf]
+  | playing => simp
+  | paused => simp
+  | stopped => simp
+
+/-- **a fade-driven step completes exactly in the update in which the fade parameter reports
+    "finished"** -/
+theorem update_fade_step (m : Psm ℝ) (dt : ℝ) (info : Info ℝ) :
+    (m.update dt info).1.fade = (m.fade.update tw32 dt info).1 ∨ m.playbackState = .waitingToResume := by
+  obtain ⟨st0, fade⟩ := m
+  unfold update playbackState
+  cases st0 with
+  | waitingToResume st tw => right; rfl
+  | pausing => left; simp only []; split <;> rfl
+  | resuming => left; simp only []; split <;> rfl
+  | stopping => left; simp only []; split <;> rfl
+  | playing => left; rfl
+  | paused => left; rfl
+  | stopped => left; rfl
+
+/-- where a fade-driven state goes when its fade finishes -/
+def fadeDone : PsmState ℝ → PsmState ℝ
+  | .pausing => .paused
+  | .resuming => .playing
+  | .stopping => .stopped
+  | st => st
+
+/-- not waiting for a start time -/
+def NotWaiting (m : Psm ℝ) : Prop := m.playbackState ≠ .waitingToResume
+
+theorem update_notWaiting (m : Psm ℝ) (dt : ℝ) (info : Info ℝ) (h : m.NotWaiting) :
+    (m.update dt info).1 = { state := if (m.fade.update tw32 dt info).2 then fadeDone m.state else m.state,
+                             fade := (m.fade.update tw32 dt info).1 }
+      ∧ (m.update dt info).1.NotWaiting := by
+  obtain ⟨st0, fade⟩ := m
+  unfold NotWaiting playbackState at *
+  unfold update
+  cases st0 with
+  | waitingToResume st tw => simp at h
+  | pausing => simp only [fadeDone]; by_cases hf : (fade.update tw32 dt info).2 = true <;> simp [hf]
+  | resuming => simp only [fadeDone]; by_cases hf : (fade.update tw32 dt info).2 = true <;> simp [hf]
+  | stopping => simp only [fadeDone]; by_cases hf : (fade.update tw32 dt info).2 = true <;> simp [hf]
+  | playing => simp [fadeDone]
+  | paused => simp [fadeDone]
+  | stopped => simp [fadeDone]
+
+/-- a run of updates -/
+noncomputable def runUpdates (m : Psm ℝ) (info : Info ℝ) : List ℝ → Psm ℝ
+  | [] => m
+  | dt :: rest => runUpdates (m.update dt info).1 info rest
+
+theorem fadeDone_idem (st : PsmState ℝ) : fadeDone (fadeDone st) = fadeDone st := by
+  cases st <;> rfl
+
+/-- **the state manager follows its fade parameter**: while not waiting for a start time, after
+    any run of updates the fade parameter is the plain `Parameter` run, and the state has taken its
+    fade-driven step iff some update reported the fade as finished. -/
+theorem runUpdates_notWaiting (info : Info ℝ) : ∀ (dts : List ℝ) (m : Psm ℝ), m.NotWaiting →
+    (m.runUpdates info dts).fade = (m.fade.run tw32 info dts).1
+      ∧ ((∀ f ∈ (m.fade.run tw32 info dts).2, f = false) → (m.runUpdates info dts).state = m.state)
+      ∧ (true ∈ (m.fade.run tw32 info dts).2 → (m.runUpdates info dts).state = fadeDone m.state) := by
+  intro dts
+  induction dts with
+  | nil => intro m _; simp [runUpdates, Parameter.run]
+  | cons dt rest ih =>
+    intro m hm
+    obtain ⟨hu, hn⟩ := update_notWaiting m dt info hm
+    obtain ⟨h1, h2, h3⟩ := ih (m.update dt info).1 hn
+    simp only [runUpdates, Parameter.run]
+    have hfade : (m.update dt info).1.fade = (m.fade.update tw32 dt info).1 := by rw [hu]
+    rw [hfade] at h1 h2 h3
+    refine ⟨h1, ?_, ?_⟩
+    · intro hall
+      have hfin : (m.fade.update tw32 dt info).2 = false := hall _ (by simp)
+      rw [h2 (fun f hf => hall f (by simp [hf]))]
+      rw [hu]; simp [hfin]
+    · intro hmem
+      simp only [List.mem_cons] at hmem
+      by_cases hfin : (m.fade.update tw32 dt info).2 = true
+      · -- finished now: the state is done and later updates keep it (fadeDone is idempotent)
+        have hst : (m.update dt info).1.state = fadeDone m.state := by rw [hu]; simp [hfin]
+        by_cases hlater : true ∈ ((m.fade.update tw32 dt info).1.run tw32 info rest).2
+        · rw [h3 hlater, hst, fadeDone_idem]
+        · rw [h2 (fun f hf => by cases f with | true => exact absurd hf hlater | false => rfl), hst]
+      · have hfin' : (m.fade.update tw32 dt info).2 = false := by simpa using hfin
+        rcases hmem with hm1 | hm1
+        · rw [hfin'] at hm1; cases hm1
+        · rw [h3 hm1, hu]; simp [hfin']
+
+end Psm
+
+namespace SoundCore
+
+/-- the handle sees the state manager's state -/
+def InSync (c : SoundCore ℝ) : Prop := c.shared = c.psm.playbackState
+
+theorem gatePsm_psm (c : SoundCore ℝ) (dtc : ℝ) (info : Info ℝ) :
+    (c.gatePsm dtc info).psm = (c.psm.update dtc info).1 ∧ (c.gatePsm dtc info).startTime = c.startTime := by
+  unfold gatePsm; simp only []; split <;> exact ⟨rfl, rfl⟩
+
+theorem gateStart_psm (c : SoundCore ℝ) (dtc : ℝ) (info : Info ℝ) (h : (c.startTime.update dtc info).2 = false) :
+    (c.gateStart dtc info).psm = c.psm := by
+  unfold gateStart; simp [h]
+
+theorem gatePsm_inSync (c : SoundCore ℝ) (dtc : ℝ) (info : Info ℝ) (h : c.InSync) : (c.gatePsm dtc info).InSync := by
+  unfold InSync gatePsm at *
+  by_cases h2 : (c.psm.update dtc info).2 = true
+  · simp [h2, syncShared]
+  · have h2' : (c.psm.update dtc info).2 = false := by simpa using h2
+    simp [h2', h, (Psm.update_edge c.psm dtc info).2 h2']
+
+theorem gateStart_inSync (c : SoundCore ℝ) (dtc : ℝ) (info : Info ℝ) (h : c.InSync) : (c.gateStart dtc info).InSync := by
+  unfold InSync gateStart at *
+  by_cases h3 : (c.startTime.update dtc info).2 = true
+  · simp [h3, markStopped, syncShared]
+  · simp [h3, h]
+
+theorem apply_inSync (c : SoundCore ℝ) (e : Event ℝ) (h : c.InSync) : (c.apply e).InSync := by
+  cases e with
+  | pause tw => rfl
+  | resume st tw => rfl
+  | stop tw => rfl
+  | markStopped => rfl
+  | gate dtc info => exact gateStart_inSync _ dtc info (gatePsm_inSync c dtc info h)
+
+theorem run_inSync : ∀ (evs : List (Event ℝ)) (c : SoundCore ℝ), c.InSync → (c.run evs).InSync := by
+  intro evs
+  induction evs with
+  | nil => intro c h; exact h
+  | cons e es ih => intro c h; exact ih _ (apply_inSync c e h)
+
+theorem new_inSync (st : StartTime ℝ) (fi : Option (Tween ℝ)) : (SoundCore.new st fi).InSync := by
+  simp [InSync, SoundCore.new, Psm.new, Psm.playbackState]
+
+theorem gatePsm_stopped (c : SoundCore ℝ) (dtc : ℝ) (info : Info ℝ) (h : c.psm.playbackState = .stopped) :
+    (c.gatePsm dtc info).psm.playbackState = .stopped := by
+  have he := (Psm.update_edge c.psm dtc info).1
+  rw [h] at he
+  have : (c.psm.update dtc info).1.playbackState = .stopped := by
+    unfold Psm.UpdateEdge at he; rcases he with h1 | h1 | h1 | h1 | h1 | h1 <;> simp_all
+  unfold gatePsm; simp only []
+  split <;> simpa [syncShared] using this
+
+theorem gateStart_stopped (c : SoundCore ℝ) (dtc : ℝ) (info : Info ℝ) (h : c.psm.playbackState = .stopped) :
+    (c.gateStart dtc info).psm.playbackState = .stopped := by
+  unfold gateStart; simp only []
+  split
+  · simp [markStopped, syncShared, Psm.markAsStopped, Psm.playbackState]
+  · exact h
+
+/-- **Stopped is absorbing**: no event leaves it. -/
+theorem apply_stopped (c : SoundCore ℝ) (e : Event ℝ) (h : c.psm.playbackState = .stopped) :
+    (c.apply e).psm.playbackState = .stopped := by
+  cases e with
+  | pause tw => simp [apply, pause, syncShared, Psm.pause_state, h]
+  | resume st tw => simp [apply, resume, syncShared, Psm.resume_state, h]
+  | stop tw => simp [apply, stop, syncShared, Psm.stop_state, h]
+  | markStopped => simp [apply, markStopped, syncShared, Psm.markAsStopped, Psm.playbackState]
+  | gate dtc info => exact gateStart_stopped _ dtc info (gatePsm_stopped c dtc info h)
+
+theorem run_stopped : ∀ (evs : List (Event ℝ)) (c : SoundCore ℝ), c.psm.playbackState = .stopped →
+    (c.run evs).psm.playbackState = .stopped := by
+  intro evs
+  induction evs with
+  | nil => intro c h; exact h
+  | cons e es ih => intro c h; exact ih _ (apply_stopped c e h)
+
+theorem reach_stopped {c c' : SoundCore ℝ} (hr : Reach c c') (h : c.psm.playbackState = .stopped) :
+    c'.psm.playbackState = .stopped := by
+  obtain ⟨evs, rfl⟩ := hr; exact run_stopped evs c h
+
+theorem reach_inSync {c c' : SoundCore ℝ} (hr : Reach c c') (h : c.InSync) : c'.InSync := by
+  obtain ⟨evs, rfl⟩ := hr; exact run_inSync evs c h
+
+/-- the gate opens only for a sound whose start time has come and whose (updated) state advances -/
+theorem gate_open_iff (c : SoundCore ℝ) (dtc : ℝ) (info : Info ℝ) :
+    (c.gate dtc info).2 = ((c.gate dtc info).1.startTime.isImmediate
+      && (c.gate dtc info).1.psm.playbackState.isAdvancing) := rfl
+
+end SoundCore
+
 namespace StaticSound
 open SoundCore
 
@@ -171,7 +399,8 @@ theorem process_evolves (fuel : Nat) (s s' : StaticSound ℝ) (len : Nat) (dt : 
     Evolves s s' ∧ outs.length = len ∧
       ((s.core.gate (dt * (len : ℝ)) info).2 = false →
         outs = List.replicate len Frame.zero ∧ s'.transport = s.transport ∧ s'.frac = s.frac
-          ∧ s'.resampler = s.resampler ∧ s'.core = (s.core.gate (dt * (len : ℝ)) info).1) := by
+          ∧ s'.resampler = s.resampler ∧ s'.core = (s.core.gate (dt * (len : ℝ)) info).1
+          ∧ s'.sharedPosition = s.sharedPosition) := by
   unfold process at h
   simp only [ofNat_real] at h
   cases hg : (s.core.gate (dt * (len : ℝ)) info).2 with
@@ -179,7 +408,7 @@ theorem process_evolves (fuel : Nat) (s s' : StaticSound ℝ) (len : Nat) (dt : 
     simp only [hg] at h
     injection h with h; injection h with h1 h2; subst h1 h2
     refine ⟨⟨rfl, rfl, rfl, rfl, Reach.single s.core (.gate _ info), fun _ hw => hw⟩, by simp, fun _ => ?_⟩
-    exact ⟨rfl, rfl, rfl, rfl, rfl⟩
+    exact ⟨rfl, rfl, rfl, rfl, rfl, rfl⟩
   | true =>
     simp only [hg, if_true] at h
     obtain ⟨e, l⟩ := renderLoop_evolves fuel dt len len 0 _ s' outs h
